@@ -14,13 +14,17 @@ func obsSet(s sets.Set[int], nu int) M {
 	if s == nil {
 		return M{"sl": []int{}, "len": 0, "has": make([]bool, nu), "rng": []int{}, "str": "{}"}
 	}
+	// Len first: every enumeration (and enough Has misses) re-organises the concurrent set's storage, so the order of
+	// the observations matters for what state each one sees
+	ln := s.Len()
+	str := s.String()
 	has := make([]bool, nu)
 	for v := 1; v <= nu; v++ {
 		has[v-1] = s.Has(v)
 	}
 	rng := []int{}
 	s.Range(func(v int) bool { rng = append(rng, v); return true })
-	return M{"sl": nz(s.Slice()), "len": s.Len(), "has": has, "rng": rng, "str": s.String()}
+	return M{"sl": nz(s.Slice()), "len": ln, "has": has, "rng": rng, "str": str}
 }
 
 func buildSet(spec M) (sets.Set[int], M) {
